@@ -294,6 +294,52 @@ pub fn c09(a: &Args) -> i32 {
     0
 }
 
+/// spec -> impl: replay ValueStream's terminal reply sequences (MC_ValueStreamGen) on a real writer producer.
+/// The exchange is the model's: `next` until an end marker or an error, then one more `next`.
+pub fn c09_vec(a: &Args) -> i32 {
+    let vecs = util::tlc_tagged_json(&a.req("vectors"), "VEC");
+    let rt = tokio::runtime::Builder::new_multi_thread().worker_threads(2).enable_all().build().unwrap();
+    let mut out = util::NdJson::create(&a.req("out"));
+    let mut servers: std::collections::HashMap<(usize, usize), Client> = Default::default();
+    let patterns = ["1", "2", "3.1", "2.3", "1000"];
+    let (mut n_ok, mut n_bad) = (0u64, 0u64);
+    for (i, v) in vecs.iter().enumerate() {
+        let (n, chunk, depth, fail) = (v["n"].as_u64().unwrap() as usize, v["chunk"].as_u64().unwrap() as usize, v["depth"].as_u64().unwrap() as usize, v["fail"].as_i64().unwrap());
+        let c = servers.entry((chunk, depth)).or_insert_with(|| {
+            let srv = start("writer", StreamOpts { chunk_bytes: chunk, compression: Compression::None, zstd_level: 1, session_depth: depth }, &rt);
+            Client::connect(srv.addr).unwrap()
+        });
+        for rep in 0..a.usize("reps", 2) {
+            let pattern = patterns[(i + rep * 2) % patterns.len()];
+            let res = format!("n={n},w={pattern},fail={fail},ps=0");
+            let mut got: Vec<Value> = vec![];
+            let open = c.call_with_formats(svs::ROUTE_OPEN, 1, Some(&beve::to_vec(&OpenRequest { resource: res.clone() }).unwrap()), 1);
+            let o: Option<OpenResponse> = open.ok().and_then(|m| m.beve_body().ok());
+            let mut bytes: Vec<u8> = vec![];
+            if let Some(o) = &o {
+                let mut ended = false;
+                for _ in 0..1000 {
+                    let r = c.call_with_formats(svs::ROUTE_NEXT, 1, Some(&beve::to_vec(&NextRequest { stream_id: o.stream_id }).unwrap()), 1);
+                    let was_ended = ended;
+                    match r {
+                        Ok(m) => { let last = m.query.first().copied() == Some(1); got.push(json!(["chunk", m.body.len(), last])); bytes.extend_from_slice(&m.body); if last { ended = true; } }
+                        Err(_) => { got.push(json!(["err", 0, false])); ended = true; }
+                    }
+                    if was_ended { break; }
+                }
+            }
+            let same = o.is_some() && Value::Array(got.clone()) == v["replies"];
+            if same { n_ok += 1 } else { n_bad += 1 }
+            out.push(&json!({"ev": "vec", "n": n, "chunk": chunk, "depth": depth, "fail": fail, "w": pattern, "expected": v["replies"], "got": got, "same": same,
+                             "bytes_ok": produced(n).starts_with(&bytes), "open": o.is_some()}));
+        }
+    }
+    out.finish();
+    util::write_json(&a.str("summary", "/dev/null"), &json!({"vectors": vecs.len(), "replayed_same": n_ok, "replayed_different": n_bad}));
+    rt.shutdown_timeout(Duration::from_secs(1));
+    0
+}
+
 #[allow(clippy::too_many_arguments)]
 fn finish_raw(e: &mut Value, kind: &str, n: usize, fail: i64, comp: u8, chunk: usize, depth: usize, want: &[u8], ps: u64, cs: u64) {
     let bytes = unhex(e["bytes"].as_str().unwrap_or(""));
